@@ -3,9 +3,12 @@
 from __future__ import annotations
 
 import ast
+import re
 
+from ..alpha import Loc, afind, ahas, amatch
 from ..const import UNKNOWN, Folder
 from ..flow import Slicer, flat_guards, parent_map
+from ..labels import LabelFlow
 from ..model import FuncInfo, Model, dotted, norm, walk_no_nested, walk_with_lambdas
 from ..report import Run
 from .common import CallGraph, short
@@ -61,10 +64,14 @@ def check(model: Model, run: Run) -> None:
             tg = n.targets[0] if isinstance(n, ast.Assign) else n.target
             if isinstance(tg, ast.Name) and isinstance(n.value, ast.Dict):
                 tables[tg.id] = _lambda_table(n.value)
-    if 'default' not in tables or 'skip' not in tables:
+    # the two dict-of-lambdas tables, recognised by what they hold (not by their names): defaults are keyed by ORIGIN,
+    # the skip predicates by NEXT_HOP
+    dname = [nm for nm, t in tables.items() if 'ORIGIN' in t]
+    sname = [nm for nm, t in tables.items() if 'NEXT_HOP' in t and 'ORIGIN' not in t]
+    if len(dname) != 1 or len(sname) != 1:
         run.cannot('default/skip tables not found in pack_attribute (shape not understood)')
         return
-    default, skip = tables['default'], tables['skip']
+    default, skip = tables[dname[0]], tables[sname[0]]
     sl = Slicer(model, pa)
     # which locals hold local_as / peer_as
     srcs = {}
@@ -76,8 +83,8 @@ def check(model: Model, run: Run) -> None:
             if d.endswith('negotiated.peer_as'):
                 srcs[nm] = 'peer'
     # the call default[code](A, B): arguments must be (local, peer) in some order, both present
-    dcalls = [c for c in walk_no_nested(pa.node) if isinstance(c, ast.Call) and isinstance(c.func, ast.Subscript) and dotted(c.func.value) == 'default']
-    scalls = [c for c in walk_no_nested(pa.node) if isinstance(c, ast.Call) and isinstance(c.func, ast.Subscript) and dotted(c.func.value) == 'skip']
+    dcalls = [c for c in walk_no_nested(pa.node) if isinstance(c, ast.Call) and isinstance(c.func, ast.Subscript) and dotted(c.func.value) == dname[0]]
+    scalls = [c for c in walk_no_nested(pa.node) if isinstance(c, ast.Call) and isinstance(c.func, ast.Subscript) and dotted(c.func.value) == sname[0]]
     for label, calls in (('default', dcalls), ('skip', scalls)):
         ok = len(calls) == 1 and len(calls[0].args) >= 2 and {srcs.get(dotted(calls[0].args[0]) or ''), srcs.get(dotted(calls[0].args[1]) or '')} == {'local', 'peer'}
         run.check(ok, pa.qualname, '%s[code](%s): iBGP/eBGP decided by local_as vs peer_as' % (label, ', '.join(norm(a) for a in calls[0].args[:2]) if calls else ''), pa.loc(calls[0]) if calls else pa.loc(), 'the session type is local AS == peer AS')
@@ -121,7 +128,8 @@ def check(model: Model, run: Run) -> None:
     run.check(ok, pa.qualname, 'operator LOCAL_PREF skipped exactly on eBGP', pa.loc(lam) if lam is not None else pa.loc(), 'LOCAL_PREF must not be sent to external peers')
     run.check(sorted(default) == ['AS_PATH', 'LOCAL_PREF', 'ORIGIN'], pa.qualname, 'defaults exist for exactly %s' % sorted(default), pa.loc(), 'only ORIGIN, AS_PATH and LOCAL_PREF have defaults')
     # NOTHING is honoured
-    nothing_guard = any(isinstance(n, ast.If) and 'attr is not NOTHING' in norm(n.test) for n in walk_no_nested(pa.node))
+    dres = Loc(model, pa).from_value(lambda v: isinstance(v, ast.Call) and v in dcalls)
+    nothing_guard = any(isinstance(n, ast.If) and any(amatch('V_a is not NOTHING', n.test, {'V_a': d}) is not None for d in dres) for n in walk_no_nested(pa.node))
     run.check(nothing_guard, pa.qualname, 'NOTHING default adds no attribute', pa.loc(), 'the eBGP LOCAL_PREF default must produce no bytes')
 
     # ------------------------------------------------------------------ R3 AS_TRANS / AS4_PATH
@@ -200,19 +208,31 @@ def _r3_aspath(model: Model, run: Run, folder: Folder) -> None:
         run.check(any(dotted(t) == 'self._asn4' and pol for t, pol in g), fi.qualname, 'stored bytes reused only when already 4-byte', fi.loc(short_ret[0]), 'stored 2-byte bytes must be re-packed for an ASN4 peer')
     rest = fi.node.body[fi.node.body.index(top) + 1 :]
     txt = '\n'.join(norm(s) for s in rest)
-    # substitution: AS_TRANS stands for an ASN exactly when asn.asn4() says it needs 4 bytes (if-statement or conditional expression)
+
+    def seed(e: ast.AST) -> tuple[str, ...]:
+        if isinstance(e, ast.Attribute) and dotted(e) == 'self.aspath':
+            return ('ORIG',)
+        if isinstance(e, ast.Name) and e.id == 'AS_TRANS':
+            return ('TRANS',)
+        return ()
+
+    lf = LabelFlow(fi.node, seed)
+    # substitution: AS_TRANS stands for an ASN exactly when <asn>.asn4() says it needs 4 bytes (if-statement or conditional expression)
     subst_ok = False
     for st in rest:
         for n in walk_with_lambdas(st):
-            if isinstance(n, ast.If) and 'asn.asn4()' in norm(n.test):
+            if isinstance(n, ast.If):
+                b = amatch('V_a.asn4()', n.test) or amatch('not V_a.asn4()', n.test)
+                if b is None:
+                    continue
                 neg = isinstance(n.test, ast.UnaryOp)
                 small, large = (n.body, n.orelse) if neg else (n.orelse, n.body)
-                if any('append(asn)' in norm(x) for x in small) and any('append(AS_TRANS)' in norm(x) for x in large):
+                keeps = any(ahas('E_x.append(V_a)', x, b) for x in small)
+                swaps = any(ahas('E_x.append(AS_TRANS)', x) for x in large)
+                if keeps and swaps:
                     subst_ok = True
-            if isinstance(n, ast.IfExp) and 'asn.asn4()' in norm(n.test):
-                neg = isinstance(n.test, ast.UnaryOp)
-                big, small_e = (n.orelse, n.body) if neg else (n.body, n.orelse)
-                if norm(big) == 'AS_TRANS' and norm(small_e) == 'asn':
+            if isinstance(n, ast.IfExp):
+                if amatch('AS_TRANS if V_a.asn4() else V_a', n) is not None or amatch('V_a if not V_a.asn4() else AS_TRANS', n) is not None:
                     subst_ok = True
     run.check(subst_ok, fi.qualname, 'every 4-byte ASN replaced by AS_TRANS, every other ASN kept', fi.loc(), 'RFC 6793 4.2.2: AS_TRANS stands for each unmappable AS')
     # the flag gating AS4_PATH is accumulated over ALL segments
@@ -224,25 +244,42 @@ def _r3_aspath(model: Model, run: Run, folder: Folder) -> None:
     if flag is None:
         run.cannot('the flag gating AS4_PATH was not found in ASPath.pack_attribute')
     else:
-        seg_loops = [n for st in rest for n in walk_no_nested(st) if isinstance(n, ast.For) and norm(n.iter) == 'self.aspath']
+        pm = parent_map(fi.node)
+
+        def in_loop(n: ast.AST) -> bool:
+            p = pm.get(id(n))
+            while p is not None and p is not fi.node:
+                if isinstance(p, (ast.For, ast.While)):
+                    return True
+                p = pm.get(id(p))
+            return False
+
         bad_assign = None
         sets_true = False
-        for loop in seg_loops:
-            for n in walk_no_nested(loop):
+        init_ok = False
+        for st in rest:
+            for n in walk_no_nested(st):
                 if isinstance(n, ast.Assign) and dotted(n.targets[0]) == flag:
                     v = n.value
-                    monotone = (isinstance(v, ast.Constant) and v.value is True) or (isinstance(v, ast.BoolOp) and isinstance(v.op, ast.Or) and any(dotted(x) == flag for x in v.values))
-                    if monotone:
-                        sets_true = True
+                    if in_loop(n):
+                        monotone = (isinstance(v, ast.Constant) and v.value is True) or (isinstance(v, ast.BoolOp) and isinstance(v.op, ast.Or) and any(dotted(x) == flag for x in v.values))
+                        if monotone:
+                            sets_true = True
+                        else:
+                            bad_assign = n
+                    elif folder.fold(v, fi.module) is False:
+                        init_ok = True
+                    elif 'ORIG' in lf.of(v) and any(isinstance(x, ast.Call) and isinstance(x.func, ast.Attribute) and x.func.attr == 'asn4' for x in ast.walk(v)):
+                        # computed once over the whole path, outside any loop
+                        init_ok = sets_true = True
                     else:
                         bad_assign = n
                 if isinstance(n, ast.AugAssign) and dotted(n.target) == flag and isinstance(n.op, ast.BitOr):
                     sets_true = True
-        init_false = any(isinstance(n, ast.Assign) and dotted(n.targets[0]) == flag and folder.fold(n.value, fi.module) is False for st in rest for n in walk_no_nested(st))
         run.check(
-            bad_assign is None and sets_true and init_false,
+            bad_assign is None and sets_true and init_ok,
             fi.qualname,
-            '%s starts False and is only ever raised inside the per-segment loop' % flag,
+            'the AS4_PATH flag starts False and is only ever raised inside the per-segment loop',
             fi.loc(bad_assign) if bad_assign is not None else fi.loc(),
             'the flag that decides whether AS4_PATH is sent is overwritten for each segment (%s): a 4-byte ASN in a non-final segment is '
             'replaced by AS_TRANS and no AS4_PATH follows, so the real AS number is lost' % (norm(bad_assign) if bad_assign is not None else 'never set'),
@@ -251,17 +288,17 @@ def _r3_aspath(model: Model, run: Run, folder: Folder) -> None:
     run.check(trans == 23456, ASPATH, 'AS_TRANS = %s' % (trans,), fi.loc(), 'AS_TRANS is 23456')
     # 2-byte packing of the substituted path
     m2 = [n for st in rest for n in walk_no_nested(st) if isinstance(n, ast.Call) and '_pack_segments_raw' in norm(n.func) and any(k.arg == 'asn4' and folder.fold(k.value, fi.module) is False for k in n.keywords)]
-    ok2 = bool(m2) and 'astrans' in norm(m2[0].args[0])
+    ok2 = bool(m2) and bool(m2[0].args) and {'TRANS', 'ORIG'} <= lf.of(m2[0].args[0])
     run.check(ok2, fi.qualname, 'AS_PATH for a 2-byte peer packs the substituted path 2 bytes wide', fi.loc(m2[0]) if m2 else fi.loc(), 'the 2-byte AS_PATH must carry the substituted path')
     # AS4_PATH with the original path, under the flag
     m4 = [n for st in rest for n in walk_no_nested(st) if isinstance(n, ast.Call) and norm(n.func) == 'AS4Path._pack_segments_raw']
     ok4p = False
     if m4:
         c = m4[0]
-        orig = c.args and norm(c.args[0]) == 'self.aspath'
+        orig = bool(c.args) and lf.of(c.args[0]) == {'ORIG'}
         wide = any(k.arg == 'asn4' and folder.fold(k.value, fi.module) is True for k in c.keywords)
         g = flat_guards(fi.node, c)
-        flagged = any(isinstance(t, ast.Name) and pol for t, pol in g)
+        flagged = any(isinstance(t, ast.Name) and t.id == flag and pol for t, pol in g)
         ok4p = bool(orig) and wide and flagged and 'AS4Path._attribute(' in txt
     run.check(ok4p, fi.qualname, 'AS4_PATH = original path, 4 bytes wide, only when an ASN was substituted', fi.loc(m4[0]) if m4 else fi.loc(), 'RFC 6793 4.2.2: AS4_PATH carries the real path for NEW speakers behind the OLD one')
 
@@ -345,25 +382,31 @@ def _r5_mp(model: Model, run: Run, folder: Folder) -> None:
     enc = model.func(MPC + '._encode_nexthop')
     for f in (reach, unreach, enc):
         run.analysed(f)
-    hdr = [n for n in walk_no_nested(reach.node) if isinstance(n, ast.Assign) and dotted(n.targets[0]) == 'header']
-    ok = len(hdr) == 1 and norm(hdr[0].value) == 'afi_bytes + safi_bytes + bytes([len(nexthop)]) + nexthop + bytes([0])'
-    srcs = {dotted(n.targets[0]): norm(n.value) for n in walk_no_nested(reach.node) if isinstance(n, ast.Assign) and dotted(n.targets[0]) in ('afi_bytes', 'safi_bytes')}
-    ok = ok and srcs.get('afi_bytes') == 'self._afi.pack_afi()' and srcs.get('safi_bytes') == 'self._safi.pack_safi()'
-    run.check(ok, reach.qualname, 'header = AFI + SAFI + len(nexthop) + nexthop + 0', reach.loc(hdr[0]) if hdr else reach.loc(), 'RFC 4760 3: address family, next hop length, next hop, one reserved zero octet, NLRI')
-    hu = [n for n in walk_no_nested(unreach.node) if isinstance(n, ast.Assign) and dotted(n.targets[0]) == 'header']
-    run.check(len(hu) == 1 and norm(hu[0].value) == 'self._afi.pack_afi() + self._safi.pack_safi()', unreach.qualname, 'header = AFI + SAFI', unreach.loc(), 'RFC 4760 4: MP_UNREACH_NLRI is AFI, SAFI, withdrawn routes')
+    rl, ul, el = Loc(model, reach), Loc(model, unreach), Loc(model, enc)
+    hdr = [n for n in walk_no_nested(reach.node) if isinstance(n, ast.Assign) and not isinstance(n.value, ast.Name) and amatch('self._afi.pack_afi() + self._safi.pack_safi() + bytes([len(V_n)]) + V_n + bytes([0])', rl.expanded(n.value)) is not None]
+    run.check(len(hdr) == 1, reach.qualname, 'header = AFI + SAFI + len(nexthop) + nexthop + 0', reach.loc(hdr[0]) if hdr else reach.loc(), 'RFC 4760 3: address family, next hop length, next hop, one reserved zero octet, NLRI')
+    hu = [n for n in walk_no_nested(unreach.node) if isinstance(n, ast.Assign) and not isinstance(n.value, ast.Name) and ul.expand(n.value) == 'self._afi.pack_afi() + self._safi.pack_safi()']
+    run.check(len(hu) == 1, unreach.qualname, 'header = AFI + SAFI', unreach.loc(), 'RFC 4760 4: MP_UNREACH_NLRI is AFI, SAFI, withdrawn routes')
     c14 = folder.class_attr(MPC, '_CODE_MP_REACH_NLRI')
     c15 = folder.class_attr(MPC, '_CODE_MP_UNREACH_NLRI')
     run.check(c14 == 14 and c15 == 15, MPC, 'attribute codes %s / %s' % (c14, c15), model.cls(MPC).loc(), 'MP_REACH_NLRI is 14, MP_UNREACH_NLRI is 15')
     uses = {('reach', '_CODE_MP_REACH_NLRI'): reach, ('unreach', '_CODE_MP_UNREACH_NLRI'): unreach}
     for (nm, code), f in uses.items():
         hs = [c for c in walk_no_nested(f.node) if isinstance(c, ast.Call) and '_attribute_header' in norm(c.func)]
-        run.check(bool(hs) and all(dotted(c.args[0]) == 'self.' + code and norm(c.args[1]) == 'len(payload)' for c in hs), f.qualname, 'attribute header uses %s and len(payload)' % code, f.loc(), 'each %s attribute carries its own code and exact length' % nm)
+        good = [n for n, _ in afind('self._attribute_header(self.%s, len(V_p)) + V_p' % code, f.node)]
+        run.check(bool(hs) and len(good) == len(hs), f.qualname, 'attribute header uses %s and len(payload)' % code, f.loc(), 'each %s attribute carries its own code and exact length' % nm)
     # next hop: RD-size zero bytes + address
-    txt = norm(enc.node)
-    ok = 'Family.size.get(family_key, (0, 0))' in txt and 'bytes([0]) * rd_size' in txt
-    rets = [r for r in walk_no_nested(enc.node) if isinstance(r, ast.Return) and 'nh_packed' in norm(r)]
-    ok = ok and bool(rets) and all(norm(r.value).startswith('nh_rd + nh_packed') for r in rets)
+    fkey = enc.node.args.args[2].arg if len(enc.node.args.args) > 2 else '?'
+    rdv = [nm for nm, ds in el.defs.items() if any(h == 'assign[1]' and v is not None and amatch('Family.size.get(V_k, (0, 0))', v, {'V_k': fkey}) is not None for v, h, _ in ds)]
+    pre = [nm for nm in el.defs if len(rdv) == 1 and any(amatch("bytes([0]) * V_rd if V_rd else b''", v, {'V_rd': rdv[0]}) is not None or amatch('bytes([0]) * V_rd', v, {'V_rd': rdv[0]}) is not None for v in el.values(nm))]
+    addr = el.from_value(lambda v: isinstance(v, ast.Call) and isinstance(v.func, ast.Attribute) and v.func.attr == 'pack_ip' and isinstance(v.func.value, ast.Name) and v.func.value.id == enc.node.args.args[1].arg)
+    rets = [r for r in walk_no_nested(enc.node) if isinstance(r, ast.Return) and r.value is not None and addr and addr[0] in el.reads(r.value)]
+    ok = len(pre) == 1 and len(addr) == 1 and bool(rets)
+    for r in rets:
+        v = r.value
+        while isinstance(v, ast.BinOp) and isinstance(v.op, ast.Add) and isinstance(v.left, ast.BinOp):
+            v = v.left
+        ok = ok and isinstance(v, ast.BinOp) and isinstance(v.left, ast.Name) and v.left.id == pre[0] and isinstance(v.right, ast.Name) and v.right.id == addr[0]
     run.check(ok, enc.qualname, 'next hop = RD-size zero bytes + packed address', enc.loc(), 'RFC 4364 4.3.2 / RFC 4659: VPN next hops are prefixed by an all-zero RD')
     fam = model.cls('exabgp.protocol.family.Family')
     size = fam.assigns.get('size')
@@ -376,7 +419,7 @@ def _r5_mp(model: Model, run: Run, folder: Folder) -> None:
     # the NLRIs use the negotiated packing
     for f in (reach, unreach):
         pk = [c for c in walk_no_nested(f.node) if isinstance(c, ast.Call) and isinstance(c.func, ast.Attribute) and c.func.attr == 'pack_nlri']
-        run.check(bool(pk) and all(norm(c.args[0]) == 'negotiated' for c in pk), f.qualname, 'NLRIs packed with the session negotiated', f.loc(), 'ADD-PATH etc. depend on the session')
+        run.check(bool(pk) and all(c.args and norm(c.args[0]) == f.node.args.args[1].arg for c in pk), f.qualname, 'NLRIs packed with the session negotiated', f.loc(), 'ADD-PATH etc. depend on the session')
 
 
 def _r6_self(model: Model, run: Run) -> None:
@@ -411,8 +454,12 @@ def _r6_self(model: Model, run: Run) -> None:
     run.check(ok, ur.qualname, 'unresolved next-hop self refused', ur.loc(), 'last line of defence against an unresolved sentinel')
     rs = model.func(NEIGHBOR + '.resolve_self')
     run.analysed(rs)
-    txt = norm(rs.node)
-    ok = 'self.ip_self(route.nlri.afi)' in txt and 'nexthop.resolve(neighbor_self)' in txt and 'route.with_nexthop(resolved_ip)' in txt
+    rsl = Loc(model, rs)
+    rp = rs.node.args.args[1].arg if len(rs.node.args.args) > 1 else '?'
+    wn = [c for c in walk_no_nested(rs.node) if isinstance(c, ast.Call) and amatch('V_r.with_nexthop(E_ip)', c, {'V_r': rp}) is not None]
+    ok = bool(wn) and all(rsl.expand(c.args[0]).replace(rsl.expand(ast.Name(id='nexthop', ctx=ast.Load())), '$nh') is not None for c in wn)
+    # the address handed to with_nexthop is <route next hop>.resolve(self.ip_self(<route>.nlri.afi))
+    ok = ok and all(re.fullmatch(r'%s\.nexthop\.resolve\(self\.ip_self\(%s\.nlri\.afi\)\)' % (re.escape(rp), re.escape(rp)), rsl.expand(c.args[0])) is not None for c in wn)
     run.check(ok, rs.qualname, 'next hop resolved to this neighbor ip_self(afi of the route)', rs.loc(), '"next-hop self" is the local address of that session, per address family')
     # the resolved NEXT_HOP goes into a FRESH attribute collection: the operator's route object is shared between
     # the neighbors it is sent to, so it must not be written (a shallow copy shares its dict)
